@@ -175,6 +175,13 @@ class Facts:
             rfns, rbuilt, self.inline_report = inline.inline_unknown(raw["fns"], raw.get("built", []), inline.load_inventory())
         except Exception as e:      # never let the convenience break the analysis: judge the functions as they are
             rfns, rbuilt, self.inline_report = raw["fns"], raw.get("built", []), {"error": repr(e)}
+        # the failing arm of a debug assertion is not part of the build the properties speak about
+        self.inline_report["debug_assert_edges"] = 0
+        for f in list(rfns) + list(rbuilt):
+            try:
+                self.inline_report["debug_assert_edges"] += inline.prune_debug_asserts(f)
+            except Exception as e:
+                self.inline_report.setdefault("skipped", []).append("debug assertions of %s: %r" % (f.get("key"), e))
         self.fns = AliasDict()
         for f in rfns:
             self.fns[f["key"]] = mir.Body(f, self)
